@@ -177,6 +177,12 @@ func (n *node[T]) clean(prefix string) {
 		if len(child.segment.Value) < len(prefix) {
 			if strings.HasPrefix(prefix, child.segment.Value) {
 				child.clean(prefix[len(child.segment.Value):])
+
+				// 与 Remove 保持一致：清除之后不再包含任何内容的节点也一并删除，
+				// 否则残留的空节点会影响之后添加的路由项的匹配方式。
+				if child.size() == 0 && len(child.children) == 0 {
+					dels = append(dels, child.segment.Value)
+				}
 			}
 		}
 
